@@ -127,6 +127,8 @@ def h264_key(rng, extra=True):
         parts.append(sc(rng) + h264_nal(rng, 6, 3))  # SEI
     if extra and rng.chance(1, 5):
         parts.append(sc(rng) + h264_nal(rng, 7, 4))  # later differing SPS
+    if extra and rng.chance(1, 5):
+        parts.append(sc(rng) + h264_nal(rng, 8, rng.range(1, 5)))  # later differing PPS (the FIRST one counts, wherever it stands)
     parts.append(sc(rng) + h264_nal(rng, 5, rng.range(2, 40)))
     return b"".join(parts)
 
